@@ -39,6 +39,7 @@ structure RawOp where
   conds : List (Key × Int)
   inverted : Bool
   scope : List String          -- path of the enclosing scopes, outermost first
+  stamps : List (List Nat × Nat) := []   -- (position path of an enclosing loop, iteration index)
   deriving DecidableEq, Repr
 
 mutual
@@ -48,15 +49,16 @@ mutual
     | 0, .sub _ => false
     | fuel + 1, .sub (.mk body _ _ _ _ _) => body.flatten.any (nodeHasMeas fuel)
 
-  /-- raw unrolling: maps applied, scopes recorded, conditions not yet bound -/
-  def rawCO : Nat → CircOp → List RawOp
-    | 0, _ => []
-    | fuel + 1, .mk body reps qmap kmap repIds parentPath =>
+  /-- raw unrolling: maps applied, scopes recorded, conditions not yet bound.  `pos` is the position path of
+  the circuit operation in the syntax tree (it identifies the loop in the iteration stamps). -/
+  def rawCO : Nat → List Nat → CircOp → List RawOp
+    | 0, _, _ => []
+    | fuel + 1, pos, .mk body reps qmap kmap repIds parentPath =>
       if reps = 0 then []
       else
         let invert := decide (reps < 0)
         -- the inverse of a circuit runs the inverses of its (fully unrolled) operations in reverse order
-        let fwd : List RawOp := body.flatten.flatMap (rawNode fuel)
+        let fwd : List RawOp := (body.flatten.zipIdx).flatMap (fun (n, i) => rawNode fuel (pos ++ [i]) n)
         let inner : List RawOp := if invert then fwd.reverse else fwd
         let mapped : List RawOp := inner.map (fun o =>
           { o with qubits := o.qubits.map (assocD qmap),
@@ -64,14 +66,15 @@ mutual
                    conds := o.conds.map (fun (k, i) => (k.mapName kmap, i)),
                    inverted := o.inverted != invert })
         let hasMeas := body.flatten.any (nodeHasMeas fuel)
-        let inScope (extra : List String) : List RawOp := mapped.map (fun o => { o with scope := parentPath ++ extra ++ o.scope })
+        let inScope (extra : List String) (iter : Nat) : List RawOp :=
+          mapped.map (fun o => { o with scope := parentPath ++ extra ++ o.scope, stamps := (pos, iter) :: o.stamps })
         match repIds with
-        | some ids => if hasMeas then ids.flatMap (fun r => inScope [r])
-                      else (List.replicate reps.natAbs (inScope [])).flatten
-        | none => (List.replicate reps.natAbs (inScope [])).flatten
-  def rawNode : Nat → Node → List RawOp
-    | _, .op id qs mk conds inv => [{ id := id, qubits := qs, mkey := mk, conds := conds, inverted := inv, scope := [] }]
-    | fuel, .sub c => rawCO fuel c
+        | some ids => if hasMeas then (ids.zipIdx).flatMap (fun (r, k) => inScope [r] k)
+                      else (List.range reps.natAbs).flatMap (fun k => inScope [] k)
+        | none => (List.range reps.natAbs).flatMap (fun k => inScope [] k)
+  def rawNode : Nat → List Nat → Node → List RawOp
+    | _, _, .op id qs mk conds inv => [{ id := id, qubits := qs, mkey := mk, conds := conds, inverted := inv, scope := [] }]
+    | fuel, pos, .sub c => rawCO fuel pos c
 end
 
 structure FlatOp where
@@ -87,7 +90,24 @@ def bindCond (scope : List String) (measured : List Key) (k : Key) : Key :=
   let cands := (List.range (scope.length + 1)).map (fun i => k.prefixed (scope.take (scope.length - i)))
   (cands.find? (fun c => measured.contains c)).getD k
 
-/-- scoping pass over the raw stream in execution order -/
+/-- Lexical visibility: a recorded measurement can be bound by a condition when it sits directly in the body of a
+circuit-operation instance (loop position and iteration) that encloses the condition, or at top level: its chain of
+instances (outermost first) is a prefix of the condition's.  Measurements made inside sibling sub-circuits, or by
+another iteration of an enclosing loop, are not candidates (`CircuitOperation._with_rescoped_keys_` drops them on
+purpose, and a loop body is scoped once per iteration). -/
+def visible (m o : List (List Nat × Nat)) : Bool := m.isPrefixOf o
+
+/-- scoping pass over the raw stream in execution order, binding among the visible recorded measurements -/
+def scopePassS : List (Key × List (List Nat × Nat)) → List RawOp → List FlatOp
+  | _, [] => []
+  | measured, o :: os =>
+    let mk := o.mkey.map (fun k => k.prefixed o.scope)
+    let vis := (measured.filter (fun m => visible m.2 o.stamps)).map (·.1)
+    let conds := o.conds.map (fun (k, i) => (bindCond o.scope vis k, i))
+    { id := o.id, qubits := o.qubits, mkey := mk, conds := conds, inverted := o.inverted }
+      :: scopePassS (measured ++ (mk.toList.map (fun k => (k, o.stamps)))) os
+
+/-- the scoping pass when every recorded measurement is visible (a circuit without sub-circuits) -/
 def scopePass : List Key → List RawOp → List FlatOp
   | _, [] => []
   | measured, o :: os =>
@@ -98,7 +118,7 @@ def scopePass : List Key → List RawOp → List FlatOp
 
 /-- the unrolled form of a circuit (moments of nodes, possibly containing circuit operations) -/
 def unrollCircuit (fuel : Nat) (moments : List (List Node)) : List FlatOp :=
-  scopePass [] (moments.flatten.flatMap (rawNode fuel))
+  scopePassS [] ((moments.flatten.zipIdx).flatMap (fun (n, i) => rawNode fuel [i] n))
 
 /-- the measurement keys a circuit reports without unrolling (`_measurement_key_objs_`): body keys prefixed by
 every repetition id (when used) and the parent path, names mapped -/
